@@ -166,18 +166,46 @@ func programs(ctx *core.Ctx) []program {
 		{{"q", "BT", "Tj"}, {"BT", "Td", "q", "TL", "Q", "ET"}, deep(30)},
 		{{"BMC", "BT", "ET", "EMC"}, {"q", "BT", "Q", "ET"}, {"BT", "BMC", "q", "Q", "EMC", "ET"}},
 	}
+	// one stream handed out in segments (the state continues over Harvest)
+	segmented := [][][]string{
+		{{"q", "w", "re", "S"}, {"m", "l", "S", "Q"}},
+		{{"q", "BT", "Td"}, {"TL", "T*", "ET"}, {"Q"}},
+		{{"re"}, {"W", "n"}, {"BMC", "re", "f", "EMC"}},
+		{{"q", "q", "q", "BMC"}, {"BI"}, {"EMC", "Q"}, {"Q", "Q"}},
+		{{"BT", "q", "Q"}, {"ET", "re", "f"}},
+		{deep(14)[:20], deep(14)[20:], {"re", "f"}},
+	}
 	for _, pre2 := range []bool{true, false} {
-		for _, mode := range []string{"reset", "build"} {
-			for _, f := range fixed {
-				out = append(out, program{pre2: pre2, mode: mode, streams: f})
+		for _, deferred := range []bool{false, true} {
+			for _, mode := range []string{"reset", "build"} {
+				for _, f := range fixed {
+					out = append(out, program{pre2: pre2, mode: mode, deferred: deferred, streams: f})
+				}
+			}
+			for _, f := range segmented {
+				out = append(out, program{pre2: pre2, mode: "harvest", deferred: deferred, streams: f})
 			}
 		}
 	}
 	r := ctx.Rand("programs")
 	seqs := randomCalls2(r, ctx.Pick(1500, 15000))
 	for i := 0; i+2 < len(seqs); i += 3 {
-		out = append(out, program{pre2: r.Intn(3) > 0, mode: []string{"reset", "build"}[r.Intn(2)],
-			streams: [][]string{seqs[i].calls, seqs[i+1].calls, seqs[i+2].calls}})
+		p := program{pre2: r.Intn(3) > 0, mode: []string{"reset", "build", "harvest"}[r.Intn(3)], deferred: r.Intn(3) > 0,
+			streams: [][]string{seqs[i].calls, seqs[i+1].calls, seqs[i+2].calls}}
+		if p.mode == "harvest" {
+			// one random program cut into 2-4 segments
+			calls := seqs[i].calls
+			p.streams = nil
+			for len(calls) > 0 {
+				k := 1 + r.Intn(len(calls))
+				if len(p.streams) == 3 {
+					k = len(calls)
+				}
+				p.streams = append(p.streams, calls[:k])
+				calls = calls[k:]
+			}
+		}
+		out = append(out, p)
 	}
 	return out
 }
